@@ -3,8 +3,8 @@ from .. import tlc
 from ..common import Machinery
 
 
-def cfg(atomic, single, callers=2, unsol=2, m=4, conns=2):
-    return (f"SPECIFICATION Spec\nCONSTANTS AtomicCounter = {atomic}\n SingleDispatcher = {single}\n NC = {callers}\n"
+def cfg(atomic, single, callers=2, unsol=2, m=4, conns=2, late="FALSE"):
+    return (f"SPECIFICATION Spec\nCONSTANTS AtomicCounter = {atomic}\n SingleDispatcher = {single}\n LateReplies = {late}\n NC = {callers}\n"
             f" NU = {unsol}\n M = {m}\n MaxConn = {conns}\nINVARIANT DistinctOutstanding\nINVARIANT OwnReplyOnly\n"
             "INVARIANT OneAtATime\nINVARIANT InOrderOnce\n")
 
@@ -16,6 +16,11 @@ def check(ctx, wd):
     tlc.require_covered(r, ["CallInc", "CallRegister", "CallSend", "CallGot", "CallTimeout", "PeerReply",
                             "PeerUnsol", "DtTake", "DtRoute", "DtDeliverEnd", "Reconnect"])
     ctx.add_tlc(r, "transaction layer as coded (locked counter, one dispatcher): all interleavings")
+    small = dict(callers=2, unsol=2, m=4) if ctx.quick else dict(callers=3, unsol=2, m=4)
+    rl = tlc.run("Transactions", cfg_text=cfg("TRUE", "TRUE", late="TRUE", **small), workdir=wd, what="tx_model_late", timeout=2400)
+    tlc.require_ok(rl, "Transactions (late replies)")
+    tlc.require_covered(rl, ["PeerLateReply", "CallTimeout", "DtRoute"])
+    ctx.add_tlc(rl, "the same with answers arriving after the caller gave up (T3)")
     r2 = tlc.run("Transactions", cfg_text=cfg("FALSE", "TRUE"), workdir=wd, what="tx_model_nonatomic", timeout=2400,
                  expect_error=True)
     ctx.add_tlc(r2, "regression witness: non-atomic counter -> TLC finds duplicate system bytes")
